@@ -1,4 +1,233 @@
-import FloxProofs.Members
+/-
+  C16 — the order of the returned group labels follows the `sort` contract; the label → value mapping never changes.
+
+    §1  the labels returned by factorisation (`factorizeLabels` = `_convert_expected_groups_to_index` +
+        `_factorize_single`), in all four cases sort ∈ {True, False} × expected_groups ∈ {given, absent}:
+        strictly ascending / as given / order of first appearance; duplicate-free; nothing lost, nothing invented
+    §2  the codes are positions in that list, so slot `j` of any result collects exactly the values whose LABEL is the
+        `j`-th returned label – whichever order was chosen: `sort` only rearranges (label, value) pairs
+    §3  `groupby_reduce` returns exactly these labels (every plan), and the labels discovered at compute time obey the
+        same contract
+    §4  the VALUES do not depend on `sort`: eager (definitionally), blockwise and cohorts (which concatenate per-block /
+        per-cohort outputs and reorder them afterwards), map-reduce
+
+  Names: `FloxProofs/LabelOrder.lean` already uses the namespace `Flox.C16` for the underlying lemmas
+  (`factorizeLabels_*`); the property theorems below have different names and restate them in full.
+
+  Vocabulary: `factorizeLabels labels expected sort : List Rat × List Int` (returned labels, one code per element;
+  labels are `Option Rat`, `none` = NaN / missing); `uniqFirst` = `pd.unique` (order of first appearance);
+  `presentKeys labels` = the non-missing labels with repetitions; `Grp.membersK κ labels vals` = the values whose label
+  is `κ`, in array order; `Grp.foundOf sort keys` = the labels discovered at compute time.
+  Property theorems only (helper lemmas live in FloxProofs).
+-/
+import FloxProofs.LabelOrder
+import FloxProofs.LabelOrderMembers
+import FloxProofs.SpecLemmas
+import FloxProofs.Blockwise
+import FloxProofs.Cohorts
+import FloxProofs.EndToEndSparse
+import FloxProofs.Grouped
+import FloxProofs.BlockwiseExamples
+import FloxProofs.CohortsExamples
+
 namespace Flox.C16
-theorem placeholder_members_nil (g : Int) (vs : List Val) : members g [] vs = [] := members_nil_left g vs
+
+/-! ## §1 the returned labels -/
+
+/-- `sort=True` with a duplicate-free `expected_groups = ex`: the returned labels are STRICTLY ASCENDING (hence
+    duplicate-free) and a rearrangement of `ex`.  Duplicate-freeness of `ex` is necessary for "strictly"
+    (`sorted_expected_needs_nodup`; flox rejects duplicated expected groups upstream). -/
+theorem labels_sorted_expected (labels : List Key) (ex : List Rat) (hnd : ex.Nodup) :
+    (factorizeLabels labels (some ex) true).1.Pairwise (· < ·)
+    ∧ (factorizeLabels labels (some ex) true).1.Perm ex :=
+  factorizeLabels_sorted_expected labels ex hnd
+
+/-- `sort=True` without `expected_groups`: the returned labels are strictly ascending and are exactly the distinct
+    non-missing labels of the data -/
+theorem labels_sorted_found (labels : List Key) :
+    (factorizeLabels labels none true).1.Pairwise (· < ·)
+    ∧ ∀ r, r ∈ (factorizeLabels labels none true).1 ↔ some r ∈ labels :=
+  factorizeLabels_sorted_found labels
+
+/-- `sort=False` with `expected_groups = ex`: the returned labels are `ex` AS GIVEN -/
+theorem labels_unsorted_expected (labels : List Key) (ex : List Rat) :
+    (factorizeLabels labels (some ex) false).1 = ex :=
+  factorizeLabels_unsorted_expected labels ex
+
+/-- `sort=False` without `expected_groups` (in-memory labels): the distinct non-missing labels in ORDER OF FIRST
+    APPEARANCE, duplicate-free, none lost -/
+theorem labels_unsorted_found (labels : List Key) :
+    (factorizeLabels labels none false).1 = uniqFirst (presentKeys labels)
+    ∧ (factorizeLabels labels none false).1.Nodup
+    ∧ ∀ r, r ∈ (factorizeLabels labels none false).1 ↔ some r ∈ labels :=
+  factorizeLabels_unsorted_found labels
+
+/-- what "order of first appearance" means: `uniqFirst` is determined by these two equations – the head comes first,
+    then the distinct elements of the rest that differ from it, again in order of first appearance -/
+theorem first_appearance_order (x : Rat) (xs : List Rat) :
+    uniqFirst [] = [] ∧ uniqFirst (x :: xs) = x :: uniqFirst (xs.filter (· ≠ x)) :=
+  ⟨uniqFirst_nil, uniqFirst_cons x xs⟩
+
+/-- `sort` only rearranges the returned labels (same members; a permutation) -/
+theorem sort_only_rearranges (labels : List Key) (expected : Option (List Rat)) :
+    (factorizeLabels labels expected true).1.Perm (factorizeLabels labels expected false).1 :=
+  factorizeLabels_sort_perm labels expected
+
+/-- without `expected_groups` no non-missing label of the data is lost, in either order -/
+theorem found_labels_complete (labels : List Key) (sort : Bool) (r : Rat) (h : some r ∈ labels) :
+    r ∈ (factorizeLabels labels none sort).1 :=
+  factorizeLabels_found_complete labels sort r h
+
+/-- **duplicate-freeness of `expected_groups` is necessary** for the strictly-ascending claim -/
+theorem sorted_expected_needs_nodup :
+    ¬ ([2, 1, 2] : List Rat).Nodup ∧ ¬ ([1, 2, 2] : List Rat).Pairwise (· < ·)
+    ∧ (([2, 1, 2] : List Rat).mergeSort fun a b => decide (a ≤ b)).Perm [1, 2, 2] :=
+  sorted_expected_counterexample
+
+/-! ## §2 codes are positions: the label → value mapping -/
+
+/-- every element is coded with the position of ITS OWN label in the returned list; the code is `-1` exactly for
+    missing labels and labels that are not in the list (all four cases) -/
+theorem codes_point_at_own_label (labels : List Key) (expected : Option (List Rat)) (sort : Bool) (i : Nat)
+    (hi : i < labels.length) :
+    ∃ hc : i < (factorizeLabels labels expected sort).2.length,
+      (∀ j : Nat, (factorizeLabels labels expected sort).2[i] = (j : Int) →
+        (factorizeLabels labels expected sort).1[j]? = labels[i] ∧ labels[i] ≠ none)
+      ∧ ((factorizeLabels labels expected sort).2[i] = -1 ↔
+          (labels[i] = none ∨ ∃ r, labels[i] = some r ∧ r ∉ (factorizeLabels labels expected sort).1)) :=
+  factorizeLabels_decode labels expected sort i hi
+
+/-- **slot `j` holds the group of the `j`-th returned label.**  The member list every plan reduces for slot `j`
+    (`members j codes vals`, see C01/C02/C05) is the list of values whose label is the `j`-th returned label, in
+    array order – for either value of `sort`, with or without `expected_groups` (duplicate-free if given). -/
+theorem slot_members_are_label_members (labels : List Key) (expected : Option (List Rat)) (sort : Bool)
+    (hnd : ∀ ex, expected = some ex → ex.Nodup) (vals : List Val) (j : Nat)
+    (hj : j < (factorizeLabels labels expected sort).1.length) :
+    members (Int.ofNat j) (factorizeLabels labels expected sort).2 vals
+      = Grp.membersK (some (factorizeLabels labels expected sort).1[j]) labels vals :=
+  factorizeLabels_members labels expected sort hnd vals j hj
+
+/-- **the mapping never changes**: if label `r` sits at position `j` of the sorted result and at position `j'` of the
+    unsorted one, both slots reduce the same member list – so any plan that returns `Spec.reduce` (C05) attaches the
+    same value to `r` under `sort=True` and `sort=False` -/
+theorem mapping_independent_of_sort (labels : List Key) (expected : Option (List Rat))
+    (hnd : ∀ ex, expected = some ex → ex.Nodup) (vals : List Val) (r : Rat) (j j' : Nat)
+    (hj : j < (factorizeLabels labels expected true).1.length)
+    (hj' : j' < (factorizeLabels labels expected false).1.length)
+    (hr : (factorizeLabels labels expected true).1[j] = r) (hr' : (factorizeLabels labels expected false).1[j'] = r) :
+    members (Int.ofNat j) (factorizeLabels labels expected true).2 vals
+      = members (Int.ofNat j') (factorizeLabels labels expected false).2 vals := by
+  rw [factorizeLabels_members labels expected true hnd vals j hj,
+    factorizeLabels_members labels expected false hnd vals j' hj', hr, hr']
+
+/-! ## §3 what `groupby_reduce` returns -/
+
+/-- **every plan returns exactly the factorised labels** (labels known when the graph is built): for every registry
+    table, request, plan, chunking and input on which the entry point `run` succeeds -/
+theorem returned_labels (rows : List InitRow) (rq : Request) (plan : Plan) (chunks : List Nat) (labels : List Key)
+    (vals : List Val) (gs : List Key) (vs : List Val) (hknown : rq.known = true)
+    (h : run rows rq plan chunks labels vals = .ok gs vs) :
+    gs = (factorizeLabels labels rq.expected rq.sort).1.map some :=
+  SpecL.run_groups rows rq plan chunks labels vals gs vs hknown h
+
+/-- labels discovered at compute time (chunked labels, no `expected_groups`): strictly ascending for `sort=True`;
+    duplicate-free and exactly the non-missing labels in both modes; and equal to what eager factorisation returns -/
+theorem discovered_labels (keys : List Key) (sort : Bool) :
+    (Grp.foundOf true keys).Pairwise (· < ·)
+    ∧ (Grp.foundOf sort keys).Nodup ∧ (∀ r, r ∈ Grp.foundOf sort keys ↔ some r ∈ keys)
+    ∧ (factorizeLabels keys none sort).1 = Grp.foundOf sort keys := by
+  refine ⟨Grp.foundOf_sorted keys, (Grp.foundOf_spec sort keys).1, (Grp.foundOf_spec sort keys).2, ?_⟩
+  simp only [factorizeLabels]
+  rw [Grp.factorizeKeys_none]
+
+/-! ## §4 the values do not depend on `sort` -/
+
+/-- **eager**: once labels are factorised, `sort` is not even looked at (every blueprint, engine, input) -/
+theorem eager_sort_irrelevant (c : Call) (b : Bool) (floatData : Bool) (chunks : List Nat) (keys : List Key)
+    (vals : List Val) :
+    runKnown { c with sort := b } .eager floatData chunks keys vals = runKnown c .eager floatData chunks keys vals :=
+  BW.eager_sort_irrelevant c b floatData chunks keys vals
+
+/-- **blockwise** concatenates per-block outputs and argsorts labels and values together when `sort=True`: the result
+    depends neither on `sort` nor on the chunking (hypotheses as in `C02.blockwise_eq_spec`) -/
+theorem blockwise_chunking_sort_irrelevant (R : Resolved) (s : Shape) (c₁ c₂ : Call) (n : Nat) (floatData : Bool)
+    (chunks₁ chunks₂ : List Nat) (codes : List Int) (vals : List Val)
+    (hR₁ : c₁.R = R) (heng₁ : c₁.eng = .npg) (hn₁ : c₁.ngroups = n) (hknown₁ : c₁.knownLabels = true)
+    (hR₂ : c₂.R = R) (heng₂ : c₂.eng = .npg) (hn₂ : c₂.ngroups = n) (hknown₂ : c₂.knownLabels = true)
+    (hshape : R.shape? = some s) (hcodes : CodesOK codes n) (hlen : codes.length = vals.length)
+    (hsum₁ : chunks₁.sum = codes.length) (hpos₁ : ∀ k ∈ chunks₁, 0 < k)
+    (hone₁ : BW.EachLabelInOneBlock chunks₁ codes)
+    (hsum₂ : chunks₂.sum = codes.length) (hpos₂ : ∀ k ∈ chunks₂, 0 < k)
+    (hone₂ : BW.EachLabelInOneBlock chunks₂ codes)
+    (hfill₁ : c₁.fillArg = R.userFill) (hfill₂ : c₂.fillArg = R.userFill) (H_allnan : HAllNaN R s)
+    (H_dropped₁ : BW.HDropped R (segsOf chunks₁ codes vals)) (H_dropped₂ : BW.HDropped R (segsOf chunks₂ codes vals))
+    (H_somelabel : BW.HSomeLabel R codes n) :
+    runKnown c₁ (.blockwise false) floatData chunks₁ (codeKeys codes) vals
+      = runKnown c₂ (.blockwise false) floatData chunks₂ (codeKeys codes) vals :=
+  BW.blockwise_chunking_sort_irrelevant R s c₁ c₂ n floatData chunks₁ chunks₂ codes vals hR₁ heng₁ hn₁ hknown₁ hR₂
+    heng₂ hn₂ hknown₂ hshape hcodes hlen hsum₁ hpos₁ hone₁ hsum₂ hpos₂ hone₂ hfill₁ hfill₂ H_allnan H_dropped₁
+    H_dropped₂ H_somelabel
+
+/-- **cohorts** concatenates per-cohort outputs (cohorts in dict order, labels in any order inside a cohort) and
+    reorders afterwards: the result depends neither on `sort` nor on the cohort structure (hypotheses as in
+    `C02.cohorts_eq_spec`; `c₁.sort`, `c₂.sort` are free) -/
+theorem cohorts_structure_sort_irrelevant (R : Resolved) (s : Shape) (c₁ c₂ : Call) (n : Nat) (floatData : Bool)
+    (chunks₁ chunks₂ : List Nat) (codes : List Int) (vals : List Val) (cs₁ cs₂ : List (List Nat × List Rat))
+    (hR₁ : c₁.R = R) (heng₁ : c₁.eng = .npg) (hn₁ : c₁.ngroups = n) (hknown₁ : c₁.knownLabels = true)
+    (hR₂ : c₂.R = R) (heng₂ : c₂.eng = .npg) (hn₂ : c₂.ngroups = n) (hknown₂ : c₂.knownLabels = true)
+    (hshape : R.shape? = some s) (hlen : codes.length = vals.length)
+    (hsound₁ : CohortsSound chunks₁ codes n cs₁) (hsound₂ : CohortsSound chunks₂ codes n cs₂)
+    (H_absent₁ : ∀ co ∈ cs₁, ∀ g : Nat, ((g : Nat) : Rat) ∈ co.2 → HAbsent R (members (Int.ofNat g) codes vals))
+    (H_absent₂ : ∀ co ∈ cs₂, ∀ g : Nat, ((g : Nat) : Rat) ∈ co.2 → HAbsent R (members (Int.ofNat g) codes vals))
+    (H_minmax : HMinMax R s)
+    (H_fill₁ : HCohortFill c₁ R n cs₁) (H_fill₂ : HCohortFill c₂ R n cs₂)
+    (hsum₁ : chunks₁.sum = codes.length) (hsum₂ : chunks₂.sum = codes.length)
+    (hcombine₁ : useGroupedCombine c₁ floatData = false) (hcombine₂ : useGroupedCombine c₂ floatData = false) :
+    runKnown c₁ (.cohorts cs₁) floatData chunks₁ (codeKeys codes) vals
+      = runKnown c₂ (.cohorts cs₂) floatData chunks₂ (codeKeys codes) vals :=
+  Flox.cohorts_structure_irrelevant R s c₁ c₂ n floatData chunks₁ chunks₂ codes vals cs₁ cs₂ hR₁ heng₁ hn₁ hknown₁
+    hR₂ heng₂ hn₂ hknown₂ hshape hlen hsound₁ hsound₂ H_absent₁ H_absent₂ H_minmax H_fill₁ H_fill₂ hsum₁ hsum₂
+    hcombine₁ hcombine₂
+
+/-- **map-reduce, `reindex=False`**: inside the blocks the groups are sorted or in order of first appearance
+    according to `sort`; the result does not depend on it -/
+theorem mapreduce_sparse_sort_irrelevant (R : Resolved) (s : Shape) (c : Call) (b : Bool) (n : Nat)
+    (floatData : Bool) (chunks : List Nat) (codes : List Int) (vals : List Val)
+    (hR : c.R = R) (heng : c.eng = .npg) (hn : c.ngroups = n) (hknown : c.knownLabels = true)
+    (hshape : R.shape? = some s) (hcodes : CodesOK codes n) (hlen : codes.length = vals.length)
+    (H_dropped : HDropped R n codes vals) (H_minmax : HMinMax R s)
+    (hsum : chunks.sum = codes.length)
+    (hcombine : useGroupedCombine c floatData = false) :
+    runKnown { c with sort := b } (.mapreduce false) floatData chunks (codeKeys codes) vals
+      = runKnown c (.mapreduce false) floatData chunks (codeKeys codes) vals :=
+  Flox.mapreduce_sparse_chunking_tree_irrelevant R s { c with sort := b } c n floatData chunks chunks codes vals
+    hR heng hn hknown hR heng hn hknown hshape hcodes hlen H_dropped H_minmax hsum hsum hcombine hcombine
+
+/-! ### non-vacuity -/
+
+/-- labels `3, NaN, 1, 3, 2`: all four cases, evaluated -/
+example : factorizeLabels exLabels none false = ([3, 1, 2], [0, -1, 1, 0, 2])
+    ∧ factorizeLabels exLabels none true = ([1, 2, 3], [2, -1, 0, 2, 1])
+    ∧ factorizeLabels exLabels (some [2, 7, 3]) false = ([2, 7, 3], [2, -1, -1, 2, 0]) := by decide +kernel
+
+/-- `mapping_independent_of_sort` on these labels: label 3 is at position 2 (sorted) and 0 (first appearance); both
+    slots hold the values at array positions 0 and 3 -/
+example : members 2 (factorizeLabels exLabels none true).2 [.fin 10, .fin 20, .fin 30, .fin 40, .fin 50]
+      = [.fin 10, .fin 40]
+    ∧ members 0 (factorizeLabels exLabels none false).2 [.fin 10, .fin 20, .fin 30, .fin 40, .fin 50]
+      = [.fin 10, .fin 40] := by decide +kernel
+
+open E2E BWEx in
+/-- blockwise, `sort=True` vs `sort=False`, same values -/
+example : runKnown (mk Rnanmean .npg true 4) (.blockwise false) true chunksA (codeKeys codesA) valsA
+    = runKnown (mk Rnanmean .npg false 4) (.blockwise false) true chunksA (codeKeys codesA) valsA :=
+  blockwise_chunking_sort_irrelevant Rnanmean (.mean true) (mk Rnanmean .npg true 4) (mk Rnanmean .npg false 4) 4 true
+    chunksA chunksA codesA valsA rfl rfl rfl rfl rfl rfl rfl rfl (by decide +kernel) (by decide +kernel) rfl
+    rfl (by decide) (by decide +kernel) rfl (by decide) (by decide +kernel) rfl rfl (by decide +kernel)
+    (by decide +kernel) (by decide +kernel) (by decide +kernel)
+
+open E2E BWEx in
+example : runKnown (mk Rnanmean .npg false 4) (.blockwise false) true chunksA (codeKeys codesA) valsA
+    = .ok [Val.fin 2, Val.fin (-1), Val.fin 5, Val.fin (-1)] := by decide +kernel
+
 end Flox.C16
